@@ -188,6 +188,10 @@ def evaluate(dep, program):
         vv, info = judge_iterative(dep, rec, L, PROPERTY, probes)
         v += vv
     probes["lstar_evals"] = L.evals
+    for li, lib in enumerate(dep.world.libraries):
+        bad = lib.modified_in_place()
+        if bad:
+            v.append(Violation("C14", "C14.input-modified", "C14:library-object-modified-in-place-by-a-call", "library %d: column(s) %s of the user's JokerSamples object no longer hold what was put there; later calls see another library" % (li, bad)))
     if program["config"].get("ll_override"):
         probes["runs_with_neg_inf_profile_stub(kernel output overridden)"] = 1
     return v, probes
